@@ -231,7 +231,7 @@ class C13(Check):
     assumptions = ["mpmath principal branches are the reference (DESIGN 3.5)",
                    "glibc libm accurate to a few ulp (factor 64)",
                    "an init that throws declines; a call is only issued after a successful init"]
-    tiers = {"quick": {"examples": 1600, "shrink_calls": 80}, "thorough": {"examples": 80000, "shrink_calls": 150}}
+    tiers = {"quick": {"examples": 1400, "shrink_calls": 80}, "thorough": {"examples": 80000, "shrink_calls": 150}}
     min_nontrivial = 2
 
     def enumerate(self, tier):
